@@ -11,7 +11,7 @@ import sys
 sys.path.insert(0, os.path.dirname(os.path.dirname(os.path.abspath(__file__))))
 from harness.core import main  # noqa
 from harness import programs  # noqa
-from checks import dagexec_p1, seqexec  # noqa
+from checks import dagexec_p1, seqexec, suitetrace  # noqa
 
 
 def run(chk):
@@ -59,6 +59,7 @@ def run(chk):
         elif not meta["values_equal_numpy"]:
             chk.drift.append(dict(note="result differs from NumPy although the write pattern is clean (C01/C11 judge values)",
                                   program=meta["program"]))
+    suitetrace.run(chk, "C05", files=None if chk.tier == "thorough" else suitetrace.QUICK_FILES_WRITES)   # every zarr-level write of the repository's own tests
     chk.extra["families"] = fam
     chk.extra["errors_in_execution"] = errors[:5]
     chk.extra["n_errors_in_execution"] = len(errors)
